@@ -5,11 +5,19 @@
 //   params_nested Root c1=T1 … field value |
 //   params_compiles S | params_fields S | params_roundtrip S field value | params_export_keys S | params_unknown S key
 //   params_enum_print E ident | params_enum_parse E text | params_runtime E ident-or-text
+//   params_runtime_a2 E ident variant      the same comparison, but both compositions are set up for the model matrix A and then
+//                                          asked to solve with a REPLACEMENT system matrix: solve(A2, rhs, x)  (make_solver's
+//                                          documented "non-stationary problem" use).  variant = same | shift:k | scale:k | skew:k |
+//                                          coef:k | diag9:k  (k = 1..16), see `replacement`
 // Oracles (independent of the Lean model; judged against the hand-written registry below):
 //   * a documented value member set through the tree is exported unchanged by params::get
 //   * a documented key is never reported through AMGCL_PARAM_UNKNOWN, any other key always is
 //   * an enumeration name that operator<< does not print makes operator>> (and the params constructor) throw
 //   * run-time wrapper vs compile-time class on the same system: x, iteration count and residual bitwise identical
+//   * the same with solve(A2, rhs, x), A2 != setup matrix; in addition (independent of the compile-time class) a run-time solve
+//     that reports convergence must satisfy A2 x = rhs (true residual recomputed with plain loops), a run-time solve with A2
+//     must not be bitwise the solve with the setup matrix when the compile-time one is not, and solve(copy of A, rhs, x) must
+//     be bitwise solve(rhs, x)
 //   * a params struct that does not even compile is reported with the compiler's message (deflated_solver probe)
 // The translation unit is compiled three times by vcheck.py (tools/checks/C14.json, "flags"), in parallel:
 //   -DVP_PART_STRUCTS  struct-level ops, nested chains, enum text ops, compile probes          (harness h_params)
@@ -223,9 +231,14 @@ static bool bitwise_equal(const Out &a, const Out &b) {
     return a.iters == b.iters && memcmp(&a.resid, &b.resid, sizeof(double)) == 0 && a.x.size() == b.x.size() &&
            (a.x.empty() || memcmp(a.x.data(), b.x.data(), a.x.size() * sizeof(double)) == 0);
 }
-template <class Solver, class Prm> static Out run(const Sys &s, const Prm &prm) {
+// a2 == nullptr: solve(rhs, x);  otherwise the solver is set up for `s` and asked to solve with the replacement matrix: solve(A2, rhs, x)
+template <class Solver, class Prm> static Out run(const Sys &s, const Prm &prm, const Sys *a2 = nullptr) {
     Solver S(std::tie(s.n, s.ptr, s.col, s.val), prm);
     Out o; o.x.assign(s.n, 0.0);
+    if (a2) {
+        ac::backend::crs<double> A2(std::tie(a2->n, a2->ptr, a2->col, a2->val));
+        std::tie(o.iters, o.resid) = S(A2, s.rhs, o.x);
+    } else
     std::tie(o.iters, o.resid) = S(s.rhs, o.x);
     { std::ostringstream os; os << S; std::string d = os.str(); size_t a = d.find("Number of levels:"); if (a != std::string::npos) o.levels = atoi(d.c_str() + a + 17); }
     return o;
@@ -242,97 +255,200 @@ static const unsigned CE = 8;   // coarse_enough: forces a hierarchy with >= 2 l
 
 // each `ct_*` runs the compile-time composition named by the enumerator; returns false for an unknown enumerator
 #ifdef VP_PART_RT
-static bool ct_solver(const std::string &id, const Sys &s, Out &o, bool &maxiter) {
-#define X(T) if (id == #T) { typedef ac::make_solver<AMG, ac::solver::T<B>> S; S::params p; p.precond.coarse_enough = CE; set_maxiter(p.solver, 0); maxiter = has_maxiter(p.solver, 0); o = run<S>(s, p); return true; }
+static bool ct_solver(const std::string &id, const Sys &s, const Sys *a2, Out &o, bool &maxiter) {
+#define X(T) if (id == #T) { typedef ac::make_solver<AMG, ac::solver::T<B>> S; S::params p; p.precond.coarse_enough = CE; set_maxiter(p.solver, 0); maxiter = has_maxiter(p.solver, 0); o = run<S>(s, p, a2); return true; }
     X(cg) X(bicgstab) X(bicgstabl) X(gmres) X(lgmres) X(fgmres) X(idrs) X(richardson) X(preonly)
 #undef X
     return false;
 }
-static bool ct_relax(const std::string &id, const Sys &s, Out &o) {
-#define X(T) if (id == #T) { typedef ac::make_solver<ac::amg<B, ac::coarsening::smoothed_aggregation, ac::relaxation::T>, ac::solver::bicgstab<B>> S; S::params p; p.solver.maxiter = MAXIT; p.precond.npre = 2; p.precond.coarse_enough = CE; o = run<S>(s, p); return true; }
+static bool ct_relax(const std::string &id, const Sys &s, const Sys *a2, Out &o) {
+#define X(T) if (id == #T) { typedef ac::make_solver<ac::amg<B, ac::coarsening::smoothed_aggregation, ac::relaxation::T>, ac::solver::bicgstab<B>> S; S::params p; p.solver.maxiter = MAXIT; p.precond.npre = 2; p.precond.coarse_enough = CE; o = run<S>(s, p, a2); return true; }
     X(gauss_seidel) X(ilu0) X(iluk) X(ilup) X(ilut) X(damped_jacobi) X(spai0) X(spai1) X(chebyshev)
 #undef X
     return false;
 }
-static bool ct_coarsening(const std::string &id, const Sys &s, Out &o) {
-#define X(T) if (id == #T) { typedef ac::make_solver<ac::amg<B, ac::coarsening::T, ac::relaxation::spai0>, ac::solver::bicgstab<B>> S; S::params p; p.solver.maxiter = MAXIT; p.precond.coarse_enough = CE; o = run<S>(s, p); return true; }
+static bool ct_coarsening(const std::string &id, const Sys &s, const Sys *a2, Out &o) {
+#define X(T) if (id == #T) { typedef ac::make_solver<ac::amg<B, ac::coarsening::T, ac::relaxation::spai0>, ac::solver::bicgstab<B>> S; S::params p; p.solver.maxiter = MAXIT; p.precond.coarse_enough = CE; o = run<S>(s, p, a2); return true; }
     X(ruge_stuben) X(aggregation) X(smoothed_aggregation) X(smoothed_aggr_emin)
 #undef X
     return false;
 }
 #endif
 #ifdef VP_PART_RTP
-static bool ct_class(const std::string &id, const Sys &s, Out &o) {
+static bool ct_class(const std::string &id, const Sys &s, const Sys *a2, Out &o) {
     typedef ac::solver::fgmres<B> Outer;
-    if (id == "amg") { typedef ac::make_solver<AMG, Outer> S; S::params p; p.solver.maxiter = MAXIT; p.precond.coarse_enough = CE; o = run<S>(s, p); return true; }
-    if (id == "relaxation") { typedef ac::make_solver<ac::relaxation::as_preconditioner<B, ac::relaxation::spai0>, Outer> S; S::params p; p.solver.maxiter = MAXIT; o = run<S>(s, p); return true; }
-    if (id == "dummy") { typedef ac::make_solver<ac::preconditioner::dummy<B>, Outer> S; S::params p; p.solver.maxiter = MAXIT; o = run<S>(s, p); return true; }
-    if (id == "nested") { typedef ac::make_solver<ac::make_solver<AMG, ac::solver::bicgstab<B>>, Outer> S; S::params p; p.solver.maxiter = MAXIT; p.precond.solver.maxiter = 2; p.precond.precond.coarse_enough = CE; o = run<S>(s, p); return true; }
+    if (id == "amg") { typedef ac::make_solver<AMG, Outer> S; S::params p; p.solver.maxiter = MAXIT; p.precond.coarse_enough = CE; o = run<S>(s, p, a2); return true; }
+    if (id == "relaxation") { typedef ac::make_solver<ac::relaxation::as_preconditioner<B, ac::relaxation::spai0>, Outer> S; S::params p; p.solver.maxiter = MAXIT; o = run<S>(s, p, a2); return true; }
+    if (id == "dummy") { typedef ac::make_solver<ac::preconditioner::dummy<B>, Outer> S; S::params p; p.solver.maxiter = MAXIT; o = run<S>(s, p, a2); return true; }
+    if (id == "nested") { typedef ac::make_solver<ac::make_solver<AMG, ac::solver::bicgstab<B>>, Outer> S; S::params p; p.solver.maxiter = MAXIT; p.precond.solver.maxiter = 2; p.precond.precond.coarse_enough = CE; o = run<S>(s, p, a2); return true; }
     return false;
 }
 
 #endif
 
-static Result runtime_op(const Toks &t) {
-    Cur c(t); const std::string e = c.tok(), x = c.tok(); c.expect_end();
+// ---- replacement system matrices for `params_runtime_a2`: all entries stay dyadic, the sparsity pattern of `diag9` differs from the setup matrix
+struct Variant { std::string kind; int k = 0; bool same() const { return kind == "same"; } };
+static const char *const VARIANT_KINDS[] = {"shift", "scale", "skew", "coef", "diag9"};
+static Variant parse_variant(const std::string &v) {
+    Variant r; if (v == "same") { r.kind = v; return r; }
+    size_t c = v.find(':'); if (c == std::string::npos) throw bad_input("variant");
+    r.kind = v.substr(0, c); const std::string num = v.substr(c + 1);
+    if (std::find_if(std::begin(VARIANT_KINDS), std::end(VARIANT_KINDS), [&](const char *k) { return r.kind == k; }) == std::end(VARIANT_KINDS)) throw bad_input("variant kind");
+    if (num.empty() || num.size() > 2 || num[0] == '0') throw bad_input("variant number");
+    for (char ch : num) if (ch < '0' || ch > '9') throw bad_input("variant number");
+    r.k = atoi(num.c_str()); if (r.k < 1 || r.k > 16) throw bad_input("variant range");
+    return r;
+}
+//   same     a separately assembled copy of the setup matrix
+//   shift:k  diagonal + k/8                                  (reaction term; stays symmetric)
+//   scale:k  (1 + k/8) * A                                   (stays symmetric)
+//   skew:k   west coefficient - k/16, east coefficient + k/16 (convection; non-symmetric)
+//   coef:k   diagonal of row r + ((5 r + 3) mod (k+1)) / 8     (slowly varying coefficient; stays symmetric)
+//   diag9:k  the four corner neighbours coupled with -k/16, diagonal + (number of corners) k/16   (different pattern; stays symmetric)
+static Sys replacement(const Sys &s, int m, const Variant &v) {
+    Sys a; a.n = s.n; a.rhs = s.rhs; a.ptr.push_back(0);
+    for (ptrdiff_t r = 0; r < (ptrdiff_t)s.n; ++r) {
+        const int i = (int)(r % m), j = (int)(r / m);
+        std::map<ptrdiff_t, double> row;
+        for (ptrdiff_t q = s.ptr[r]; q < s.ptr[r + 1]; ++q) row[s.col[q]] += s.val[q];
+        if (v.kind == "shift") row[r] += v.k / 8.0;
+        else if (v.kind == "scale") { for (auto &cv : row) cv.second *= 1.0 + v.k / 8.0; }
+        else if (v.kind == "skew") { if (i > 0) row[r - 1] -= v.k / 16.0; if (i + 1 < m) row[r + 1] += v.k / 16.0; }
+        else if (v.kind == "coef") row[r] += (double)((5 * r + 3) % (v.k + 1)) / 8.0;
+        else if (v.kind == "diag9") {
+            for (int dj = -1; dj <= 1; dj += 2) for (int di = -1; di <= 1; di += 2) {
+                int ii = i + di, jj = j + dj; if (ii < 0 || ii >= m || jj < 0 || jj >= m) continue;
+                row[(ptrdiff_t)jj * m + ii] -= v.k / 16.0; row[r] += v.k / 16.0;
+            }
+        }
+        for (auto &cv : row) { a.col.push_back(cv.first); a.val.push_back(cv.second); }
+        a.ptr.push_back((ptrdiff_t)a.col.size());
+    }
+    return a;
+}
+static bool same_matrix(const Sys &a, const Sys &b) { return a.ptr == b.ptr && a.col == b.col && a.val == b.val; }
+// ||rhs - A x|| / ||rhs|| with plain loops (no amgcl code)
+static double true_residual(const Sys &a, const std::vector<double> &rhs, const std::vector<double> &x) {
+    double rr = 0, ff = 0;
+    for (size_t r = 0; r < a.n; ++r) { double t = rhs[r]; for (ptrdiff_t q = a.ptr[r]; q < a.ptr[r + 1]; ++q) t -= a.val[q] * x[a.col[q]]; rr += t * t; ff += rhs[r] * rhs[r]; }
+    return std::sqrt(rr / ff);
+}
+
+// one run-time composition (configured through a property tree with the text `text` of enumerator `x`) and the compile-time composition of
+// the same components; both set up for `s`; a2 == nullptr: solve(rhs, x), otherwise solve(*a2, rhs, x)
+static void solve_pair(const std::string &e, const std::string &x, const std::string &text, const Sys &s, const Sys *a2, Out &rt, Out &ct, bool &known) {
+    ptree p;
+    if (false) {
+#ifdef VP_PART_RT
+    } else if (e == "runtime::solver") {
+        bool mi = false; known = ct_solver(x, s, a2, ct, mi);
+        p.put("solver.type", text); if (mi) p.put("solver.maxiter", MAXIT); p.put("precond.coarse_enough", CE);
+        rt = run<ac::make_solver<AMG, ac::runtime::solver::wrapper<B>>>(s, p, a2);
+    } else if (e == "runtime::relaxation") {
+        known = ct_relax(x, s, a2, ct);
+        p.put("precond.relax.type", text); p.put("precond.npre", 2); p.put("solver.maxiter", MAXIT); p.put("precond.coarse_enough", CE);
+        rt = run<ac::make_solver<ac::amg<B, ac::coarsening::smoothed_aggregation, ac::runtime::relaxation::wrapper>, ac::solver::bicgstab<B>>>(s, p, a2);
+    } else if (e == "runtime::coarsening") {
+        known = ct_coarsening(x, s, a2, ct);
+        p.put("precond.coarsening.type", text); p.put("precond.coarse_enough", CE); p.put("solver.maxiter", MAXIT);
+        rt = run<ac::make_solver<ac::amg<B, ac::runtime::coarsening::wrapper, ac::relaxation::spai0>, ac::solver::bicgstab<B>>>(s, p, a2);
+#endif
+#ifdef VP_PART_RTP
+    } else if (e == "runtime::precond_class") {
+        known = ct_class(x, s, a2, ct);
+        p.put("precond.class", text); p.put("solver.maxiter", MAXIT);
+        if (x == "nested") { p.put("precond.solver.maxiter", 2); p.put("precond.precond.coarse_enough", CE); }
+        if (x == "amg") p.put("precond.coarse_enough", CE);
+        rt = run<ac::make_solver<ac::runtime::preconditioner<B>, ac::solver::fgmres<B>>>(s, p, a2);
+#endif
+#ifdef VP_PART_RT
+    } else if (e == "preconditioner::side") {
+        typedef ac::make_solver<AMG, ac::solver::gmres<B>> S; S::params q; q.solver.maxiter = MAXIT; q.precond.coarse_enough = CE;
+        if (x == "left") q.solver.pside = ac::preconditioner::side::left; else if (x == "right") q.solver.pside = ac::preconditioner::side::right; else throw bad_input("side");
+        ct = run<S>(s, q, a2); known = true;
+        p.put("solver.pside", text); p.put("solver.maxiter", MAXIT); p.put("precond.coarse_enough", CE);
+        rt = run<S>(s, S::params(p), a2);
+#endif
+    } else throw bad_input("enum without run-time comparison in this part of the harness");
+}
+
+static const int MODEL_M = 9;   // 9 x 9 grid, 81 unknowns
+static bool symmetric_only(const std::string &e, const std::string &x) { return e == "runtime::solver" && (x == "cg" || x == "richardson"); }
+
+static Result runtime_op(const Toks &t, bool a2op) {
+    Cur c(t); const std::string e = c.tok(), x = c.tok(); const std::string vtxt = a2op ? c.tok() : std::string(); c.expect_end();
     const vp::EnumReg *E = vp::find_enum(e); if (!E) throw bad_input("enum");
-    Result r; r.nontrivial = true; r.tag("runtime_" + e.substr(e.rfind(':') + 1));
+    Result r; r.nontrivial = true; r.tag((a2op ? "runtime_a2_" : "runtime_") + e.substr(e.rfind(':') + 1));
 #ifdef _OPENMP
     omp_set_num_threads(1);     // bitwise comparison of two solves: keep the reductions deterministic
 #endif
     // the text put into the tree is what the real operator<< prints for the enumerator
     bool is_ident = std::find(E->idents.begin(), E->idents.end(), x) != E->idents.end();
     if (!is_ident) throw bad_input("ident");
+    Variant var; if (a2op) var = parse_variant(vtxt);
     const std::string text = E->print(x);
     const bool nonsym = e != "runtime::solver" || (x != "cg");
-    Sys s = poisson2d(9, nonsym && x != "richardson");
+    Sys s = poisson2d(MODEL_M, nonsym && x != "richardson");
+    const std::string who = "enum " + e + " value " + x;
     Out rt, ct; bool known = false;
     try {
-        ptree p;
-        if (false) {
-#ifdef VP_PART_RT
-        } else if (e == "runtime::solver") {
-            bool mi = false; known = ct_solver(x, s, ct, mi);
-            p.put("solver.type", text); if (mi) p.put("solver.maxiter", MAXIT); p.put("precond.coarse_enough", CE);
-            rt = run<ac::make_solver<AMG, ac::runtime::solver::wrapper<B>>>(s, p);
-        } else if (e == "runtime::relaxation") {
-            known = ct_relax(x, s, ct);
-            p.put("precond.relax.type", text); p.put("precond.npre", 2); p.put("solver.maxiter", MAXIT); p.put("precond.coarse_enough", CE);
-            rt = run<ac::make_solver<ac::amg<B, ac::coarsening::smoothed_aggregation, ac::runtime::relaxation::wrapper>, ac::solver::bicgstab<B>>>(s, p);
-        } else if (e == "runtime::coarsening") {
-            known = ct_coarsening(x, s, ct);
-            p.put("precond.coarsening.type", text); p.put("precond.coarse_enough", CE); p.put("solver.maxiter", MAXIT);
-            rt = run<ac::make_solver<ac::amg<B, ac::runtime::coarsening::wrapper, ac::relaxation::spai0>, ac::solver::bicgstab<B>>>(s, p);
-#endif
-#ifdef VP_PART_RTP
-        } else if (e == "runtime::precond_class") {
-            known = ct_class(x, s, ct);
-            p.put("precond.class", text); p.put("solver.maxiter", MAXIT);
-            if (x == "nested") { p.put("precond.solver.maxiter", 2); p.put("precond.precond.coarse_enough", CE); }
-            if (x == "amg") p.put("precond.coarse_enough", CE);
-            rt = run<ac::make_solver<ac::runtime::preconditioner<B>, ac::solver::fgmres<B>>>(s, p);
-#endif
-#ifdef VP_PART_RT
-        } else if (e == "preconditioner::side") {
-            typedef ac::make_solver<AMG, ac::solver::gmres<B>> S; S::params q; q.solver.maxiter = MAXIT; q.precond.coarse_enough = CE;
-            if (x == "left") q.solver.pside = ac::preconditioner::side::left; else if (x == "right") q.solver.pside = ac::preconditioner::side::right; else throw bad_input("side");
-            ct = run<S>(s, q); known = true;
-            p.put("solver.pside", text); p.put("solver.maxiter", MAXIT); p.put("precond.coarse_enough", CE);
-            rt = run<S>(s, S::params(p));
-#endif
-        } else throw bad_input("enum without run-time comparison in this part of the harness");
-        if (!known) { r.out = "no-compile-time-class"; r.fail("enum " + e + " value " + x + ": the harness has no compile-time composition for this enumerator (new value?)"); return r; }
-        if (bitwise_equal(rt, ct)) r.out = "same";
-        else { r.out = "differ"; r.fail("enum " + e + " value " + x + ": run-time wrapper and compile-time class differ (iters " + std::to_string(rt.iters) + " vs " + std::to_string(ct.iters) + ")"); }
-        if (rt.iters > (size_t)MAXIT) r.fail("enum " + e + " value " + x + ": maxiter set through the tree did not take effect");
+        if (!a2op) {
+            solve_pair(e, x, text, s, nullptr, rt, ct, known);
+            if (!known) { r.out = "no-compile-time-class"; r.fail(who + ": the harness has no compile-time composition for this enumerator (new value?)"); return r; }
+            if (bitwise_equal(rt, ct)) r.out = "same";
+            else { r.out = "differ"; r.fail(who + ": run-time wrapper and compile-time class differ (iters " + std::to_string(rt.iters) + " vs " + std::to_string(ct.iters) + ")"); }
+        } else {
+            // both compositions are set up for `s`; rt/ct solve with the replacement matrix, rt1/ct1 with the setup matrix (two-argument form)
+            const Sys a2 = replacement(s, MODEL_M, var);
+            if (same_matrix(a2, s) != var.same()) r.fail("harness: replacement matrix " + vtxt + " is not what its name says");
+            Out rt1, ct1; bool known1 = false;
+            solve_pair(e, x, text, s, &a2, rt, ct, known);
+            if (!known) { r.out = "no-compile-time-class"; r.fail(who + ": the harness has no compile-time composition for this enumerator (new value?)"); return r; }
+            solve_pair(e, x, text, s, nullptr, rt1, ct1, known1);
+            r.tag("a2_" + var.kind);
+            const bool rt_moved = !bitwise_equal(rt, rt1), ct_moved = !bitwise_equal(ct, ct1);
+            std::ostringstream d; d.precision(17);
+            d << who << ", setup for A, solve(A2, rhs, x) with A2 = " << vtxt << ": ";
+            if (bitwise_equal(rt, ct)) r.out = "same";
+            else {
+                r.out = "differ";
+                std::ostringstream w; w.precision(17);
+                w << d.str() << "run-time wrapper and compile-time class differ (iters " << rt.iters << " vs " << ct.iters << ", reported residual " << rt.resid << " vs " << ct.resid
+                  << ", true residual |rhs - A2 x|/|rhs| " << true_residual(a2, s.rhs, rt.x) << " vs " << true_residual(a2, s.rhs, ct.x) << ")";
+                if (!var.same() && !rt_moved && ct_moved) w << "; the run-time result is bitwise the result of solve(rhs, x): the supplied matrix A2 is ignored";
+                if (!var.same() && rt_moved && !ct_moved) w << "; the compile-time result is bitwise the result of solve(rhs, x): the supplied matrix A2 is ignored";
+                r.fail(w.str());
+            }
+            if (var.same()) {
+                // a separately assembled copy of the setup matrix: the three-argument form must be the two-argument form
+                if (rt_moved) r.fail(d.str() + "run-time solve(copy of A, rhs, x) is not bitwise solve(rhs, x)");
+                if (ct_moved) r.fail(d.str() + "compile-time solve(copy of A, rhs, x) is not bitwise solve(rhs, x)");
+            } else {
+                if (ct_moved) r.tag("a2_changes_result");
+                if (rt_moved != ct_moved) r.fail(d.str() + (rt_moved ? "only the run-time" : "only the compile-time") + " composition reacts to the replacement matrix");
+                r.nontrivial = rt_moved || ct_moved;     // false for preonly, which never reads the system matrix
+            }
+            // independent of the other composition: a solve that reports convergence has solved A2 x = rhs
+            auto converged = [&](const Out &o, const char *name) {
+                if (!(o.iters >= 1 && o.iters < (size_t)MAXIT && o.resid <= 1e-8)) return;
+                r.tag("a2_converged");
+                double tr = true_residual(a2, s.rhs, o.x);
+                if (!(tr < 1e-4)) { std::ostringstream w; w.precision(17); w << d.str() << name << " composition reports convergence (iters " << o.iters << ", residual " << o.resid
+                    << ") but A2 x != rhs: true relative residual " << tr; r.fail(w.str()); }
+            };
+            converged(rt, "run-time"); converged(ct, "compile-time");
+        }
+        // BiCGStab(L) counts whole sweeps of L (default 2) steps and tests `iter < maxiter` between sweeps: the last sweep may end at maxiter + L - 1
+        const size_t iter_bound = (size_t)MAXIT + (e == "runtime::solver" && x == "bicgstabl" ? 1 : 0);
+        if (rt.iters > iter_bound) r.fail(who + ": maxiter set through the tree did not take effect");
         if (rt.iters >= 2) r.tag("iters_ge2");
         if (rt.levels >= 2) r.tag("levels_ge2");
-        if (rt.levels != ct.levels) r.fail("enum " + e + " value " + x + ": run-time and compile-time hierarchies have different depth");
+        if (rt.levels != ct.levels) r.fail(who + ": run-time and compile-time hierarchies have different depth");
         if (rt.levels >= 0 && rt.levels < 2) r.fail("harness: model problem too small, the hierarchy has a single level (components never constructed)");
     } catch (const std::invalid_argument &ex) {
         std::string w = ex.what();
-        if (w.find("Unsupported") != std::string::npos) { r.out = "unsupported"; r.fail("enum " + e + " value " + x + ": no case in a wrapper switch (" + w.substr(0, 60) + ")"); }
-        else { r.out = "invalid"; r.fail("enum " + e + " value " + x + ": the name '" + text + "' printed by operator<< is rejected by operator>> (" + w.substr(0, 60) + ")"); }
+        if (w.find("Unsupported") != std::string::npos) { r.out = "unsupported"; r.fail(who + ": no case in a wrapper switch (" + w.substr(0, 60) + ")"); }
+        else { r.out = "invalid"; r.fail(who + ": the name '" + text + "' printed by operator<< is rejected by operator>> (" + w.substr(0, 60) + ")"); }
     }
     return r;
 }
@@ -353,7 +469,8 @@ static Result execute(const Toks &t) {
     }
     if (vp::struct_op(t, r)) return r;
     if (vp::enum_text_op(t, r)) return r;
-    if (op == "params_runtime") return runtime_op(t);
+    if (op == "params_runtime") return runtime_op(t, false);
+    if (op == "params_runtime_a2") return runtime_op(t, true);
     throw bad_input("op");
 }
 
@@ -387,9 +504,27 @@ static void generate(Rng &rng, const Opts &o, std::vector<std::string> &lines) {
         if (rtp) continue;
 #endif
         lines.push_back("params_runtime " + E.name + " " + id);
+        // replacement-matrix solves: the copy, plus {2 random (quick) | every kind x 3 random sizes (thorough)} variants with A2 != A
+        lines.push_back("params_runtime_a2 " + E.name + " " + id + " same");
+        std::vector<std::string> kinds;
+        for (const char *k : VARIANT_KINDS) if (!(std::string(k) == "skew" && symmetric_only(E.name, id))) kinds.push_back(k);
+        if (o.thorough()) { for (auto &k : kinds) for (int q = 0; q < 3; ++q) lines.push_back("params_runtime_a2 " + E.name + " " + id + " " + k + ":" + std::to_string(rng.range(1, 16))); }
+        else {
+            long k1 = rng.range(0, (long)kinds.size() - 1), k2 = (k1 + rng.range(1, (long)kinds.size() - 1)) % (long)kinds.size();     // two different kinds
+            for (long k : {k1, k2}) lines.push_back("params_runtime_a2 " + E.name + " " + id + " " + kinds[k] + ":" + std::to_string(rng.range(1, 16)));
+        }
     }
     lines.push_back("params_runtime runtime::solver no_such_solver");
     lines.push_back("params_runtime");
+    lines.push_back("params_runtime_a2 runtime::solver cg");
+    lines.push_back("params_runtime_a2 runtime::solver no_such_solver same");
+    lines.push_back("params_runtime_a2 no_such_enum cg same");
+    lines.push_back("params_runtime_a2 runtime::solver cg shift:0");
+    lines.push_back("params_runtime_a2 runtime::solver cg shift:17");
+    lines.push_back("params_runtime_a2 runtime::solver cg shift:03");
+    lines.push_back("params_runtime_a2 runtime::solver cg shift:");
+    lines.push_back("params_runtime_a2 runtime::solver cg warp:3");
+    lines.push_back("params_runtime_a2 runtime::solver cg same extra");
 }
 
 int main(int argc, char **argv) {
